@@ -12,7 +12,7 @@ EXPLANATION = ("get_method / get_status are evaluated abstractly once per code c
                "values and UnKnown otherwise; setters must store Request(m) / Response(s); every single-valued "
                "option setter must clear (or replace) the option before adding, on all paths (typestate over the "
                "sequence of Packet option calls); the 0.2 and 0.3 coap-message impls must have identical effect "
-               "summaries method by method")
+               "summaries method by method; the option map is restructured only by the raw API in packet.rs (C19.14, who-may-call); the typed decoder's width check is taken over from C06 (C19.13)")
 NOT_DECIDED = "Not decided: set_path/get_path string semantics beyond separator agreement; byte equality through the encoder."
 ASSUMPTIONS = []
 
